@@ -136,8 +136,13 @@ def run(ctx):
                 if it.get("path"):
                     it["path"] = ren(it["path"])
         cases.append((w, False, "eval"))
+    import dds._config as cfg
     for wi, (w, with_loads, ek) in enumerate(cases):
         ek = ek or ("eval" if rng.random() < 0.6 else "keep")
+        # the documented option extra_debug (on by default) switched off for every third pipeline: the export is requested the same way
+        nodebug = wi % 3 == 1
+        cfg.set_option("extra_debug", not nodebug)
+        res.count("extra_debug_" + ("off" if nodebug else "on"))
         entry = {"kind": "eval", "fun": "f0"} if ek == "eval" else {"kind": "keep", "fun": "f0", "path": "/top"}
         with pipeline.Session("memory", tag="c18") as s:
             s.set_world(w)
@@ -152,7 +157,7 @@ def run(ctx):
             msteps.append({"run": {"entry": entry}})
             res.evaluations += 1
             res.nontrivial(json.dumps(sorted((r["paths"] or {}).items())))
-            case = {"entry": entry, "source": progs.render_world(w, "extmod")}
+            case = {"entry": entry, "source": progs.render_world(w, "extmod"), "option_extra_debug": not nodebug}
             if r["error"] is not None:
                 res.violations.append({"what": "evaluation with graph export fails: %s" % (r["error"],), "input": case, "kf": None})
                 continue
@@ -278,6 +283,7 @@ def run(ctx):
                                                   "model": [sorted(mn), sorted(msol), sorted(mda)], "case": case})
             if wi < 2:
                 res.sample({"source": case["source"], "nodes": sorted(inodes), "solid": sorted(isolid), "dashed": sorted(idashed), "dotted": sorted(idotted)})
+    cfg.reset_option("extra_debug")
     # keeps made inside methods of a class (own and inherited methods), and a later kept function that loads such a path: every path
     # the evaluation commits is a node of the exported graph, with the solid / dashed edges the property describes (outside the
     # model's syntax: the real graph against the expectation written next to the program)
